@@ -35,6 +35,7 @@ func propC11(c *Ctx) {
 	if m := c.E1Base(); m != nil {
 		c.ruleC11Paren(m)
 		c.ruleOpenTransparent(m, "C11-OPEN-TRANSPARENT")
+		c.ruleOpenUngated("C11-OPEN-UNGATED")
 		c.ruleCommentBeforeOpen("C11-COMMENT-BEFORE-OPEN")
 		// the states entered after '(' return by popping: a pop with nothing pushed refuses a well-nested document
 		c.R.Only = func(rule string) bool { return rule == "C01-PDS-UNDERFLOW" }
